@@ -98,7 +98,13 @@ Proof.
   rewrite <- N.lxor_lor by exact L. symmetry. apply N.add_nocarry_lxor. exact L.
 Qed.
 
+(* (x << k) & mask = (x mod 2^(w-k)) << k *)
+Lemma shl_mod : forall x c m b, m = b * c -> c <> 0 -> b <> 0 -> (x * c) mod m = (x mod b) * c.
+Proof. intros x c m b -> Hc Hb. apply N.mul_mod_distr_r; assumption. Qed.
+
 (* ---------- interval computation in Ltac ------------------------------------------------------------------ *)
+Definition refreshed (x : N) : Prop := True.
+
 Ltac is_num e := lazymatch e with N0 => idtac | Npos ?p => lazymatch isPcst p with true => idtac end end
 with isPcst p := lazymatch p with xH => constr:(true) | xO ?q => isPcst q | xI ?q => isPcst q | _ => constr:(false) end.
 
@@ -157,6 +163,10 @@ Ltac simp_eq E :=
   | context [?a mod ?c] => let pa := ub a in rewrite (mod_small_ub a c _ pa eq_refl) in E
   | context [(?a mod ?W) mod ?m] =>
     rewrite (mod_mod_divide a W m ltac:(discriminate) eq_refl ltac:(discriminate)) in E
+  | context [(?x * ?c) mod ?m] =>
+    is_num c; is_num m;
+    let b := eval vm_compute in (m / c) in
+    rewrite (shl_mod x c m b eq_refl ltac:(discriminate) ltac:(discriminate)) in E
   | context [?a / ?c] => let pa := ub a in rewrite (div_small_ub a c _ pa eq_refl) in E
   | context [?a + 0] => rewrite (N.add_0_r a) in E
   | context [0 + ?a] => rewrite (N.add_0_l a) in E
@@ -199,16 +209,30 @@ Ltac norm_lt H :=
   | _ => idtac
   end.
 
+(* after a bound of v has been refined by a branch condition: re-simplify and re-bound the variables defined from v
+   (the statements between the definition and the test, e.g.  tmp[i+8] += (x << 28) & mask;  if ... && x > 1) *)
+Ltac refresh v :=
+  is_var v;
+  repeat match goal with
+  | E : ?y = ?rhs |- _ =>
+    is_var y;
+    lazymatch rhs with context [v] => idtac end;
+    lazymatch goal with R : refreshed y |- _ => fail | _ => idtac end;
+    let R := fresh "R" in assert (R : refreshed y) by exact I;
+    simp_eq E; add_bounds y E; refresh y
+  end.
+
 (* a comparison with a numeral on one side: split and record the bound *)
 Ltac split_ltb a b :=
   let H := fresh "C" in
   destruct (N.ltb_spec a b) as [H|H];
   [ first [ (* a < b : upper bound for a if b numeral, lower bound for b if a numeral *)
-            (is_num b; norm_lt H)
+            (is_num b; norm_lt H; try refresh a)
           | (is_num a; apply N.le_succ_l in H;
-             let r := eval vm_compute in (N.succ a) in change (N.succ a) with r in H)
+             let r := eval vm_compute in (N.succ a) in change (N.succ a) with r in H; try refresh b)
           | idtac ]
-  | idtac ].
+  | first [ (is_num b; try refresh a) | (is_num a; try refresh b) | idtac ] ];
+  repeat match goal with R : refreshed _ |- _ => clear R end.
 
 (* execute an `if` of the goal *)
 Ltac exec_if :=
@@ -263,12 +287,59 @@ Ltac fix_subs :=
     let H := fresh "SA" in pose proof (sub_to_add x a b _ _ E pb la eq_refl) as H; clear E
   end.
 
+(* any remaining truncated subtraction a - b (also nested in a sum) with b <= a by the intervals:
+   name it d and keep d + b = a *)
+Lemma sub_def : forall a b Kb La, b <= Kb -> La <= a -> (Kb <=? La) = true -> (a - b) + b = a.
+Proof. intros a b Kb La H1 H2 Hc. apply N.leb_le in Hc. lia. Qed.
+Ltac name_subs :=
+  repeat match goal with
+  | H : context [?a - ?b] |- _ =>
+    let pb := ub b in let la := lb a in
+    let d := fresh "d" in let Hd := fresh "SD" in
+    pose proof (sub_def a b _ _ pb la eq_refl) as Hd;
+    set (d := a - b) in *; clearbody d
+  | |- context [?a - ?b] =>
+    let pb := ub b in let la := lb a in
+    let d := fresh "d" in let Hd := fresh "SD" in
+    pose proof (sub_def a b _ _ pb la eq_refl) as Hd;
+    set (d := a - b) in *; clearbody d
+  end.
+
+(* every quotient / remainder by a numeral: name them q, r and keep s = d*q + r *)
+Ltac name_divmods :=
+  repeat match goal with
+  | H : context [?s / ?d] |- _ =>
+    is_num d;
+    let q := fresh "q" in let r := fresh "r" in let Hd := fresh "QR" in
+    pose proof (N.div_mod s d ltac:(discriminate)) as Hd;
+    set (q := s / d) in *; set (r := s mod d) in *; clearbody q r
+  | H : context [?s mod ?d] |- _ =>
+    is_num d;
+    let q := fresh "q" in let r := fresh "r" in let Hd := fresh "QR" in
+    pose proof (N.div_mod s d ltac:(discriminate)) as Hd;
+    set (q := s / d) in *; set (r := s mod d) in *; clearbody q r
+  | |- context [?s / ?d] =>
+    is_num d;
+    let q := fresh "q" in let r := fresh "r" in let Hd := fresh "QR" in
+    pose proof (N.div_mod s d ltac:(discriminate)) as Hd;
+    set (q := s / d) in *; set (r := s mod d) in *; clearbody q r
+  | |- context [?s mod ?d] =>
+    is_num d;
+    let q := fresh "q" in let r := fresh "r" in let Hd := fresh "QR" in
+    pose proof (N.div_mod s d ltac:(discriminate)) as Hd;
+    set (q := s / d) in *; set (r := s mod d) in *; clearbody q r
+  end.
+
+
 (* leaf recipe for linear value equations: no div/mod left, defining equations substituted *)
 Ltac subst_defs := repeat match goal with E : ?x = _ |- _ => is_var x; subst x end.
 Ltac clear_bounds := repeat match goal with U : _ <= _ |- _ => clear U end.
 Ltac leaf_lia := euclid_pairs; subst_defs; clear_bounds; lia.
 (* keeps the bounds: needed when truncated subtractions remain *)
 Ltac leaf_lia_b := fix_subs; euclid_pairs; subst_defs; clear_bounds; lia.
+
+(* the leaf recipe for paths with subtractions and shifts: purely linear at the end *)
+Ltac leaf_linear := name_subs; clear_bounds; name_divmods; subst_defs; lia.
 
 (* powers of two as numerals (ring on N does not identify 2^456 with 2^228 * 2^228) *)
 Ltac num_pows := repeat match goal with |- context [2 ^ ?k] => let v := eval vm_compute in (2^k) in change (2^k) with v end.
